@@ -797,6 +797,11 @@ type chainCase struct {
 	// a record that the JSON encoder refuses (year > 9999, gob carries it): a step to JSON may fail —
 	// but if the command reports success, its output must still decode to the original sequence
 	MayFail bool `json:"may_fail,omitempty"`
+	// what the output paths of the chain hold before the chain runs: "" nothing, "junk" random bytes,
+	// "valid-gob|csv|json" a longer well-formed result file in that encoding; every output must replace it entirely
+	Prefill string `json:"prefill,omitempty"`
+	// the same chain over the same paths run first with this longer input (then with Records)
+	First []gen.ResultSpec `json:"first,omitempty"`
 }
 
 func allChains(maxLen int) [][]string {
@@ -833,6 +838,38 @@ func runChains(c *run.Ctx, s *kit.Summary, cases []chainCase) {
 		if err := os.WriteFile(prev, encodeAll(cc.Start, toResults(cc.Records)), 0o644); err != nil {
 			panic(err)
 		}
+		if cc.Prefill != "" {
+			// longer than anything the chain writes
+			longest := 0
+			for _, e := range encodings {
+				if l := len(encodeAll(e, toResults(cc.Records))); l > longest {
+					longest = l
+				}
+			}
+			var stale []byte
+			if cc.Prefill == "junk" {
+				stale = bytes.Repeat([]byte("stale junk \x00\xff{\",1\n"), longest/16+64)
+			} else {
+				old := append(append([]gen.ResultSpec{}, cc.Records...), cc.Records...)
+				pad := gen.InterResult(kit.NewRng(int64(ci)), 999999, longest+100)
+				old = append(old, pad, pad)
+				stale = encodeAll(strings.TrimPrefix(cc.Prefill, "valid-"), toResults(old))
+			}
+			for k, to := range cc.Chain {
+				os.WriteFile(filepath.Join(dir, fmt.Sprintf("c%d_%d.%s", ci, k+1, to)), stale, 0o644)
+			}
+		}
+		if len(cc.First) > 0 {
+			// first pass over the same output paths with the longer input; its answers are not evaluated
+			p0 := filepath.Join(dir, fmt.Sprintf("c%d_0first.%s", ci, cc.Start))
+			os.WriteFile(p0, encodeAll(cc.Start, toResults(cc.First)), 0o644)
+			for k, to := range cc.Chain {
+				out := filepath.Join(dir, fmt.Sprintf("c%d_%d.%s", ci, k+1, to))
+				ops = append(ops, "encode "+kit.HexS(to)+" "+kit.HexS(out)+" "+kit.HexS(p0))
+				steps = append(steps, step{-1, k, out})
+				p0 = out
+			}
+		}
 		for k, to := range cc.Chain {
 			out := filepath.Join(dir, fmt.Sprintf("c%d_%d.%s", ci, k+1, to))
 			ops = append(ops, "encode "+kit.HexS(to)+" "+kit.HexS(out)+" "+kit.HexS(prev))
@@ -846,13 +883,18 @@ func runChains(c *run.Ctx, s *kit.Summary, cases []chainCase) {
 		return
 	}
 	if hungAt >= 0 {
-		s.Violate(kit.Violation{Kind: "chain_encode_hung", What: "encode command did not return within 90 s", Input: cases[steps[hungAt].ci]})
+		if ci := steps[hungAt].ci; ci >= 0 {
+			s.Violate(kit.Violation{Kind: "chain_encode_hung", What: "encode command did not return within 90 s", Input: cases[ci]})
+		}
 		for len(outs) < len(steps) {
 			outs = append(outs, "not-run")
 		}
 	}
 	failed := map[int]bool{}
 	for i, st := range steps {
+		if st.ci < 0 { // first pass of a chain that is run twice
+			continue
+		}
 		cc := cases[st.ci]
 		if failed[st.ci] || outs[i] == "not-run" {
 			continue
@@ -1018,7 +1060,25 @@ func runC08(c *run.Ctx, s *kit.Summary) {
 			if len(rs) > 12 {
 				rs = rs[:12]
 			}
-			batch = append(batch, chainCase{Records: rs, Start: encodings[r.Pick(3)], Chain: ch})
+			cc := chainCase{Records: rs, Start: encodings[r.Pick(3)], Chain: ch}
+			switch r.Pick(6) {
+			case 0:
+				cc.Prefill = "junk"
+			case 1:
+				cc.Prefill = "valid-" + encodings[r.Pick(3)]
+			case 2:
+				cc.Prefill = "valid-" + ch[len(ch)-1]
+			case 3:
+				cc.First = append(append([]gen.ResultSpec{}, rs...), rs...)
+				cc.First = append(cc.First, gen.InterResult(r, 888888, 3000+r.Pick(3000)))
+			}
+			if cc.Prefill != "" {
+				s.Count("chain:output_exists=" + strings.Split(cc.Prefill, "-")[0])
+			}
+			if len(cc.First) > 0 {
+				s.Count("chain:run_twice_shorter_second")
+			}
+			batch = append(batch, cc)
 		}
 		if len(batch) >= 600 || k == inputs-1 {
 			runChains(c, s, batch)
